@@ -59,3 +59,107 @@ package builder
 //@   loop#5 invariant [class-inner C15] 0 <= r && rt == RtOf(cl) && (!ignoreCase ==> forall q rune :: 0 <= q && q < 128 ==> basicLatinChars[q] ==
 //@     | ((exists k int :: 0 <= k && k < len(chars) && chars[k] == q) || (exists k int :: 0 <= k && 2*k + 1 < len(ranges) && ranges[2*k] <= q && q <= ranges[2*k+1]) || (exists k int :: 0 <= k && k < idx4 && uniIs(RtOf(unicodeClasses[k]), q)) || (q < r && uniIs(rt, q))))
 //@   safety C13 C15
+
+// ======================================================================================
+// Left-recursion detection pipeline (C07, C19)
+// ======================================================================================
+// The graph algorithms of scc.go (recursive closures over maps) are outside the verified subset:
+// their contracts below are ASSUMED (and exercised by the bounded stand-in of the C07/C19 checks).
+
+// SelfLoop / members of a component
+// package-level error values are initialised by errors.New and never reassigned (no function has them in its frame)
+//@ axiom errs-nonnil: ErrNoLeader != nil && ErrHaveLeftRecursion != nil && ErrInvalidParameters != nil
+//@ pred SelfLoopIn(graph map[string]map[string]struct{}, scc map[string]struct{}) bool = exists v string :: has(scc, v) && has(graph, v) && has(graph[v], v)
+
+//@ extern StronglyConnectedComponents(vertices []string, edges map[string]map[string]struct{}) (sccs []map[string]struct{})
+//@   ensures [nonnil] forall k int :: {sccs[k]} 0 <= k && k < len(sccs) ==> sccs[k] != nil && len(sccs[k]) >= 1
+//@   ensures [members] forall k int, v string :: {has(sccs[k], v)} 0 <= k && k < len(sccs) && has(sccs[k], v) ==> (exists j int :: 0 <= j && j < len(vertices) && vertices[j] == v) || has(edges, v)
+// every member of a component with several members has an outgoing edge
+//@   ensures [live] forall k int, v string :: {has(sccs[k], v)} 0 <= k && k < len(sccs) && has(sccs[k], v) && len(sccs[k]) > 1 ==> has(edges, v) && len(edges[v]) >= 1
+//@   ensures [fresh] forall k int :: {sccs[k]} 0 <= k && k < len(sccs) ==> fresh(sccs[k])
+// rule names are non-empty identifiers (front-end), so no component contains the empty name
+//@   ensures [names] forall k int :: {sccs[k]} 0 <= k && k < len(sccs) ==> !has(sccs[k], "")
+
+//@ extern FindCyclesInSCC(graph map[string]map[string]struct{}, scc map[string]struct{}, start string) (cycles [][]string, err error)
+
+//@ func findLeader(graph map[string]map[string]struct{}, scc map[string]struct{}) (leader string, err error)
+//@   requires [names] scc != nil && !has(scc, "") && len(scc) >= 1
+// C19: the leader is the least candidate, whatever order the maps are iterated in
+//@   ensures [in-scc C07] err == nil ==> has(scc, leader)
+//@   ensures [min C19 C08 local] err == nil ==> has(leaders, leader) && forall k string :: {has(leaders, k)} has(leaders, k) ==> leader <= k
+//@   loop#1 invariant [copied] (forall k string :: {sel(visited1, k)} sel(visited1, k) ==> has(leaders, k)) && (forall k string :: {sel(dom1, k)} sel(dom1, k) == has(scc, k))
+//@   loop#1 invariant [fill] mapdom(scc) == old(mapdom(scc)) && leaders != nil && fresh(leaders) && forall k string :: {has(leaders, k)} has(leaders, k) ==> has(scc, k)
+//@   loop#2 invariant [some] len(leaders) >= 1
+//@   loop#2 invariant [cand] mapdom(scc) == old(mapdom(scc)) && leaders != nil && fresh(leaders) && forall k string :: {has(leaders, k)} has(leaders, k) ==> has(scc, k)
+//@   loop#3 invariant [some] len(leaders) >= 1
+//@   loop#3 invariant [cand] mapdom(scc) == old(mapdom(scc)) && leaders != nil && fresh(leaders) && forall k string :: {has(leaders, k)} has(leaders, k) ==> has(scc, k)
+//@   loop#4 invariant [cand] mapdom(scc) == old(mapdom(scc)) && leaders != nil && fresh(leaders) && mapCycle != leaders && forall k string :: {has(leaders, k)} has(leaders, k) ==> has(scc, k)
+//@   loop#5 invariant [cand] mapdom(scc) == old(mapdom(scc)) && leaders != nil && fresh(leaders) && mapCycle != leaders && forall k string :: {has(leaders, k)} has(leaders, k) ==> has(scc, k)
+//@   loop#6 invariant [least C19] (leader == "" || sel(visited6, leader)) && (forall k string :: {sel(visited6, k)} sel(visited6, k) ==> leader != "" && leader <= k) && !has(leaders, "") && (forall k string :: {sel(dom6, k)} sel(dom6, k) == has(leaders, k))
+//@   safety C13
+
+//@ func MakeFirstGraph(rules map[string]*ast.Rule) (graph map[string]map[string]struct{})
+//@   requires [wf] rules != nil && RulesWF(rules) && TreeWF()
+// there is an edge A -> B exactly when B may be invoked at the start position of A's expression
+//@   ensures [edges C07] forall r string :: {has(graph, r)} has(rules, r) ==> has(graph, r) && graph[r] != nil && forall nm string :: {has(graph[r], nm)} has(graph[r], nm) == InFirst(rules[r], nm)
+//@   ensures [closed C07] graph != nil && fresh(graph) && forall r string :: {has(graph, r)} has(graph, r) ==> graph[r] != nil
+//@   ensures [only-rules C07] forall r string, nm string :: {has(graph[r], nm)} has(graph, r) && has(graph[r], nm) ==> has(rules, r)
+//@   loop#1 invariant [acc C07] graph != nil && fresh(graph) && vertices != nil && fresh(vertices)
+//@     | && (forall r string :: {has(graph, r)} has(graph, r) == sel(visited1, r))
+//@     | && (forall r string :: {has(graph, r)} has(graph, r) ==> has(rules, r) && graph[r] != nil && graph[r] != vertices && alloc(graph[r]) && forall nm string :: {has(graph[r], nm)} has(graph[r], nm) == InFirst(rules[r], nm))
+//@     | && (forall r string :: {sel(dom1, r)} sel(dom1, r) == has(rules, r))
+//@   loop#2 invariant [acc-inner C07] graph != nil && fresh(graph) && vertices != nil && fresh(vertices) && names != vertices && names != nil && has(rules, rulename) && rules[rulename] == rule
+//@     | && (forall r string :: {has(graph, r)} has(graph, r) == (sel(visited1, r) || r == rulename))
+//@     | && graph[rulename] == names && (forall nm string :: {has(names, nm)} has(names, nm) == InFirst(rule, nm)) && alloc(names)
+//@     | && (forall r string :: {has(graph, r)} has(graph, r) ==> has(rules, r) && graph[r] != nil && graph[r] != vertices && alloc(graph[r]) && forall nm string :: {has(graph[r], nm)} has(graph[r], nm) == InFirst(rules[r], nm))
+//@     | && (forall r string :: {sel(dom1, r)} sel(dom1, r) == has(rules, r))
+//@   loop#3 invariant [close C07] graph != nil && fresh(graph)
+//@     | && (forall r string :: {has(graph, r)} has(rules, r) ==> has(graph, r) && forall nm string :: {has(graph[r], nm)} has(graph[r], nm) == InFirst(rules[r], nm))
+//@     | && (forall r string :: {has(graph, r)} has(graph, r) ==> graph[r] != nil && alloc(graph[r]))
+//@     | && (forall r string, nm string :: {has(graph[r], nm)} has(graph, r) && has(graph[r], nm) ==> has(rules, r))
+//@   safety C13
+
+//@ func ComputeNullables(rules map[string]*ast.Rule)
+//@   requires [wf] rules != nil && RulesWF(rules) && TreeWF()
+//@   modifies Flags
+//@   safety C13
+
+//@ func ComputeLeftRecursives(rules map[string]*ast.Rule) (have bool, err error)
+//@   requires [wf] rules != nil && RulesWF(rules) && TreeWF()
+//@   modifies all Rule.LeftRecursive, all Rule.Leader
+// a component with several members or a self-loop is left recursion, and is reported
+//@   ensures [detects C07 local] err == nil ==> (have == exists k int :: 0 <= k && k < len(sccs) && (len(sccs[k]) > 1 || SelfLoopIn(graph, sccs[k])))
+//@   loop#2 invariant [seen C07] (haveLeftRecursion == exists k int :: 0 <= k && k < idx2 && (len(sccs[k]) > 1 || SelfLoopIn(graph, sccs[k]))) && GraphFacts(graph, rules) && SccFacts(sccs, graph)
+//@   loop#3 invariant [members C07] idx2 < len(sccs) && scc == sccs[idx2] && len(scc) > 1 && (haveLeftRecursion == ((exists k int :: 0 <= k && k < idx2 && (len(sccs[k]) > 1 || SelfLoopIn(graph, sccs[k]))) || exists v string :: sel(visited3, v))) && GraphFacts(graph, rules) && SccFacts(sccs, graph) && (forall v string :: {sel(dom3, v)} sel(dom3, v) == has(scc, v))
+//@   loop#4 invariant [single C07] idx2 < len(sccs) && scc == sccs[idx2] && len(scc) <= 1 && (name == "" || has(scc, name)) && (forall v string :: {sel(visited4, v)} sel(visited4, v) ==> false) && (forall v string :: {sel(dom4, v)} sel(dom4, v) == has(scc, v)) && (haveLeftRecursion == exists k int :: 0 <= k && k < idx2 && (len(sccs[k]) > 1 || SelfLoopIn(graph, sccs[k]))) && GraphFacts(graph, rules) && SccFacts(sccs, graph)
+//@   safety C13
+//@ pred GraphFacts(graph map[string]map[string]struct{}, rules map[string]*ast.Rule) bool = graph != nil && RulesWF(rules)
+//@   | && (forall r string :: {has(graph, r)} has(graph, r) ==> graph[r] != nil)
+//@   | && (forall r string, nm string :: {has(graph[r], nm)} has(graph, r) && has(graph[r], nm) ==> has(rules, r))
+//@ pred SccFacts(sccs []map[string]struct{}, graph map[string]map[string]struct{}) bool =
+//@   | (forall k int :: {sccs[k]} 0 <= k && k < len(sccs) ==> sccs[k] != nil && len(sccs[k]) >= 1 && !has(sccs[k], ""))
+//@   | && (forall k int, v string :: {has(sccs[k], v)} 0 <= k && k < len(sccs) && has(sccs[k], v) && len(sccs[k]) > 1 ==> has(graph, v) && len(graph[v]) >= 1)
+
+//@ func PrepareGrammar(grammar *ast.Grammar) (have bool, err error)
+//@   requires [wf] grammar != nil && TreeWF() && forall k int :: 0 <= k && k < len(grammar.Rules) ==> grammar.Rules[k] != nil
+//@   loop#1 invariant [table] mapRules != nil && RulesWF(mapRules)
+//@   modifies Flags, all Rule.LeftRecursive, all Rule.Leader
+//@   ensures [err-means-false C07] err != nil ==> !have
+//@   safety C13
+
+// emission helpers: not under functional contract here (frame only, trusted)
+//@ extern builder.writeInit(b *builder, init *ast.CodeBlock)
+//@   modifies all builder.err
+//@ extern builder.writeGrammar(b *builder, g *ast.Grammar)
+//@   modifies all builder.err, all builder.exprIndex, all builder.ruleName, all builder.globalState, all builder.rangeTable, all ActionExpr.FuncIx, all AndCodeExpr.FuncIx, all NotCodeExpr.FuncIx, all StateCodeExpr.FuncIx
+//@ extern builder.writeRuleCode(b *builder, rule *ast.Rule)
+//@   modifies all builder.err, all builder.ruleName, all builder.argsStack, all ActionExpr.FuncIx, all AndCodeExpr.FuncIx, all NotCodeExpr.FuncIx, all StateCodeExpr.FuncIx
+//@ extern builder.writeStaticCode(b *builder)
+//@   modifies all builder.err
+
+//@ func (b *builder) buildParser(grammar *ast.Grammar) (res error)
+//@   requires [wf] b != nil && grammar != nil && TreeWF() && forall k int :: 0 <= k && k < len(grammar.Rules) ==> grammar.Rules[k] != nil
+//@   modifies Flags, all Rule.LeftRecursive, all Rule.Leader, all builder.err, all builder.exprIndex, all builder.ruleName, all builder.globalState, all builder.rangeTable, all builder.argsStack, all builder.haveLeftRecursion, all ActionExpr.FuncIx, all AndCodeExpr.FuncIx, all NotCodeExpr.FuncIx, all StateCodeExpr.FuncIx
+// C07: an analysis error and left recursion without -support-left-recursion are build errors
+//@   ensures [reject C07 C13 local] (err != nil ==> res != nil) && (err == nil && haveLeftRecursion && !old(b.supportLeftRecursion) ==> res != nil)
+//@   safety C13
